@@ -785,11 +785,36 @@ def rule_limit_spellings(ctx):
                 interp.raise_("builtins.ValueError", "invalid literal")
             return result_symbol
 
-        interp, outcome = run_call(model, ch, info.qualname, ["name", AText(AText.TEXT, "number"), None], externals={"int": int_hook})
+        number_text = AText(AText.TEXT, "number")
+        asked = {}
+
+        def contains_hook(interp, args, kwargs):
+            # "decimal or 0x-hex integers": the text may be asked for an underscore (digit grouping of Python source)
+            container, item = args
+            if container is number_text and item == "_":
+                if "underscore" not in asked:
+                    asked["underscore"] = ch.choose("text contains an underscore", [False, True])
+                return asked["underscore"]
+            raise Undecided("membership test %r in %r" % (item, container))
+
+        interp, outcome = run_call(model, ch, info.qualname, ["name", number_text, None], externals={"int": int_hook, "contains": contains_hook})
         actual = ("raise " + exc_name(outcome[1])) if outcome[0] == "raise" else ("value" if outcome[1] is result_symbol else repr(outcome[1]))
+        if asked.get("underscore"):
+            return (outcome_choice + ", text with an underscore", actual, "raise InterfaceError")
         return (outcome_choice, actual, "value" if outcome_choice == "value" else "raise InterfaceError")
 
     decide(ctx, "O1.6", "number-limit", info.qualname, number_cell, min_cells=2)
+
+    # concrete spellings: "limits written as decimal or 0x-hex integers" - not with the digit grouping of Python source
+    def concrete_number_cell(ch):
+        text, value = ch.choose("limit text", [("10", 10), ("0x1f", 31), ("0X1F", 31), ("007", None), ("1_0", None), ("0x1_0", None), ("1__0", None)])
+        interp, outcome = run_call(model, ch, info.qualname, ["name", text, None])
+        actual = ("raise " + exc_name(outcome[1])) if outcome[0] == "raise" else outcome[1]
+        if text == "007":
+            return None  # int('007', 0) is refused by Python although int('007') is not; either reading is a decimal integer
+        return (text, actual, value if value is not None else "raise InterfaceError")
+
+    decide(ctx, "O1.6", "number-limit (concrete spellings)", info.qualname, concrete_number_cell, min_cells=6)
 
     symbolic = model.func("cutplace.ranges.code_for_symbolic_token")
 
